@@ -6,7 +6,9 @@ use crate::Ctx;
 const P: &str = "C01";
 
 pub fn run(ctx: &Ctx) -> ! {
-    let hp = HistoryParams::standard(ctx.tier);
+    let mut hp = HistoryParams::standard(ctx.tier);
+    // removals also come through the application's rules (a 'kick' custom proposal expanded into a local Remove)
+    hp.kicks = true;
     let spec = RunSpec {
         shards: 16,
         cases_per_shard: ctx.tier.pick(100, 400),
